@@ -133,6 +133,11 @@ Definition run_cmd (m : ovf_mode) (cmd : tok) (args : list tok) : list byte :=
   else if tok_is cmd "UNIX" then run_unix m args
   else if tok_is cmd "TSTR" then run_tstr args
   else if tok_is cmd "TSFMT" then run_tsfmt args
+  else if tok_is cmd "TSTRESS" then     (* formatting by 8 threads at once must give what one thread alone gives: the model is a function *)
+    match args with
+    | [_; _; c] => match get_N c with Some n => join [S_ "OK"; show_N n; S_ "SAME"] | None => bad_case end
+    | _ => bad_case
+    end
   else if tok_is cmd "NOW" then run_now m args
   else if tok_is cmd "TICK" then run_tick m args
   else if tok_is cmd "REALNOW" then S_ "OK"     (* the real clock: the implementation's answers are bracketed by the harness' own clock readings *)
